@@ -12,7 +12,7 @@ import (
 func init() {
 	register(&Spec{
 		ID:          "C06",
-		Loads:       []LoadSpec{{Patterns: []string{"./shachain", "./lnwallet", "./lnwire", "./chanstate", "./channeldb"}}},
+		Loads:       []LoadSpec{{Patterns: []string{"./contractcourt", "./shachain", "./lnwallet", "./lnwire", "./chanstate", "./channeldb"}}},
 		Explanation: "Decides that the revocation store is bounded by type (a fixed array of 48 buckets plus one index), that a secret is stored and the index advanced only after it reproduced every lower bucket, that no index arithmetic in the shachain package is narrowed below 64 bits, that the store and producer codecs agree, that revoke_and_ack messages are built only by the one generator whose two callers are the persist-then-release revocation and the reconnect retransmission with the documented heights, that the release is dominated by the durable commitment write, and that the status-update writers rewrite the channel only from a copy read in the same transaction (so a stale handle cannot roll durable state back behind released secrets).",
 		NotDecided: []string{
 			"exact derivation for all 2^48 indexes (bit arithmetic and hashing)", "that a corrupted secret is always rejected (hash pre-image resistance)",
@@ -222,5 +222,55 @@ func statusWriters(r *an.Run) {
 				o.FailAt("putOpenChannel#sites", "", "expected at least 6 status writers, found %d", n)
 			}
 			_ = flow.KCond
+		})
+
+	revocationAcceptance(r)
+
+	r.Obl("own-chain-indexes", "ROLE",
+		"every call of the local revocation producer's AtIndex outside tests is one of the tabled sites and asks for the index its role requires: 0 when the channel is created; 1 for the second commitment point of channel_ready; the current height for the unrevoked commitment (restore, anchor resolutions, channel_reestablish); current height + 1 for the next revocation key and the commitment being received; the revoked height and that height + 2 in generateRevocation; the peer's reported tail - 1 when proving data loss; the force-closed / broadcast state number for the close summaries; the nonce target height for musig2",
+		"a point or secret taken at another index repeats or skips an element of the derivation chain the peer holds us to", 15,
+		func(o *an.Obl) {
+			want := map[string][]string{
+				"chanstate.NewMusigVerificationNonce":                {"$p1"},
+				"chanstate.OpenChannel.ChanSyncMsg":                  {"$recv.LocalCommitment.CommitHeight"},
+				"chanstate.OpenChannel.SecondCommitmentPoint":        {"1"},
+				"contractcourt.chainWatcher.handleUnknownLocalState": {"$p1"},
+				lw + "LightningChannel.NewAnchorResolutions":         {"$recv.currentHeight"},
+				lw + "LightningChannel.NextRevocationKey":            {"($recv.currentHeight + 1)"},
+				lw + "LightningChannel.ProcessChanSyncMsg":           {"($p1.RemoteCommitTailHeight - 1)"},
+				lw + "LightningChannel.ReceiveNewCommitment":         {"($recv.currentHeight + 1)"},
+				lw + "LightningChannel.generateRevocation":           {"$p0", "($p0 + 2)"},
+				lw + "LightningChannel.restoreCommitState":           {"$recv.currentHeight"},
+				lw + "LightningWallet.initOurContribution":           {"0", "0"},
+				lw + "NewLocalForceCloseSummary":                     {"$p4"},
+				lw + "WithLocalCounterNonce":                         {"$p0"},
+			}
+			got := map[string][]string{}
+			for _, f := range p.Funcs(false) {
+				for _, s := range f.Calls(an.CalleeIs("shachain.Producer.AtIndex"), false) {
+					a := f.ArgCanon(s)
+					o.Site("%s index=%s", s.String(), a[0])
+					got[f.Root().ID] = append(got[f.Root().ID], a[0])
+				}
+			}
+			for fn, idx := range got {
+				w, ok := want[fn]
+				if !ok {
+					o.FailAt(fn+"#untabled-AtIndex", "", "%s derives an element of our revocation chain at %v; the site is not in the table", fn, idx)
+					continue
+				}
+				g := append([]string{}, idx...)
+				sortStrings(g)
+				ww := append([]string{}, w...)
+				sortStrings(ww)
+				if strings.Join(g, " | ") != strings.Join(ww, " | ") {
+					o.FailAt(fn+"#AtIndex", "", "%s asks the revocation producer for index %v, its role requires %v", fn, g, ww)
+				}
+			}
+			for fn := range want {
+				if _, ok := got[fn]; !ok {
+					o.FailAt(fn+"#AtIndex-missing", "", "%s no longer derives from the revocation producer", fn)
+				}
+			}
 		})
 }
